@@ -22,14 +22,20 @@ var smlKeywords = map[string]bool{
 	"T": true, "F": true,
 }
 
+var nameWords = []string{"true", "false", "True", "FALSE", "TRUE", "nil", "null", "NaN", "nan", "Inf", "inf", "e5", "E1", "e", "x", "0x1", "0b1", "b1", "x41", "T", "F", "t", "f",
+	"L", "A", "B", "U1", "I8", "F4", "F8", "BOOLEAN", "boolean", "list", "var", "W", "S1F1", "H", "E", "MISSING", "EXTRA", "s", "d", "v", "0", "1", "00", "10", "u", "n"}
+
+var keywordList = []string{"T", "F", "T", "F", "L", "A", "B", "BOOLEAN", "F4", "F8", "I1", "I2", "I4", "I8", "U1", "U2", "U4", "U8"}
+
 const nameFirst = "abcdefghijklmnopqrstuvwxyzABCDEFGHIJKLMNOPQRSTUVWXYZ_"
 const nameRest = nameFirst + "0123456789"
 
 // namer hands out variable names that are unique within one case.
 type namer struct {
 	used   map[string]bool
-	sml    bool // names must be expressible in SML (no keyword)
-	suffix bool // allow [n] suffixes
+	bases  []string // bases handed out so far, in order (for names related to an earlier one)
+	sml    bool     // names must be expressible in SML (no keyword)
+	suffix bool     // allow [n] suffixes
 }
 
 func newNamer(sml, suffix bool) *namer {
@@ -47,9 +53,56 @@ func (nm *namer) draw(t *rapid.T) string {
 		sb.WriteByte(nameRest[rapid.IntRange(0, len(nameRest)-1).Draw(t, "c")])
 	}
 	base := sb.String()
+	if len(nm.bases) > 0 && rapid.IntRange(0, 7).Draw(t, "relatedName") == 7 {
+		// a name that stands in a relation to an earlier one of the same case: differs only in letter case, is a prefix of
+		// it, extends it by one character, or is the same base (told apart by an index suffix or the uniqueness counter)
+		prev := nm.bases[rapid.IntRange(0, len(nm.bases)-1).Draw(t, "relatedTo")]
+		switch rapid.IntRange(0, 3).Draw(t, "relation") {
+		case 0:
+			i := rapid.IntRange(0, len(prev)-1).Draw(t, "flipAt")
+			c := prev[i]
+			switch {
+			case c >= 'a' && c <= 'z':
+				c -= 32
+			case c >= 'A' && c <= 'Z':
+				c += 32
+			}
+			base = prev[:i] + string(c) + prev[i+1:]
+		case 1:
+			base = prev[:rapid.IntRange(1, len(prev)).Draw(t, "prefixLen")]
+		case 2:
+			base = prev + string(nameRest[rapid.IntRange(0, len(nameRest)-1).Draw(t, "ext")])
+		default:
+			base = prev
+		}
+		stats.labelOnly("related-name", 1)
+	}
+	if rapid.IntRange(0, 9).Draw(t, "wordyName") == 9 {
+		// a name made of words that mean something elsewhere (Go / SML spellings of values, type names, header tokens):
+		// a replace, a prefix test or a case-insensitive comparison meant for values must not touch names
+		k := rapid.IntRange(1, 3).Draw(t, "wordyParts")
+		var wb strings.Builder
+		for i := 0; i < k; i++ {
+			if i > 0 && rapid.Bool().Draw(t, "wordySep") {
+				wb.WriteByte('_')
+			}
+			wb.WriteString(rapid.SampledFrom(nameWords).Draw(t, "word"))
+		}
+		base = wb.String()
+		if c := base[0]; c >= '0' && c <= '9' {
+			base = "_" + base
+		}
+		stats.labelOnly("wordy-name", 1)
+	}
+	if !nm.sml && rapid.IntRange(0, 11).Draw(t, "keywordName") == 11 {
+		// objects built through the factories only: a variable may be called like a literal or a type (T, f, L, u1 ...)
+		base = randomCase(t, rapid.SampledFrom(keywordList).Draw(t, "keyword"))
+		stats.labelOnly("keyword-like-name", 1)
+	}
 	if nm.sml && smlKeywords[strings.ToUpper(base)] {
 		base += "_"
 	}
+	nm.bases = append(nm.bases, base)
 	name := base
 	if nm.suffix {
 		k := rapid.IntRange(0, 5).Draw(t, "nsuffix")
@@ -115,8 +168,94 @@ var f8Specials = []uint64{
 	0x43E0000000000000, 0x43EFFFFFFFFFFFFF, 0x43F0000000000000, 0xC3E0000000000000, 0x43DFFFFFFFFFFFFF, 0x41E0000000000000, 0x41F0000000000000, // 2^63, just below 2^64, 2^64, -2^63, below 2^63, 2^31, 2^32
 }
 
+// patternBits draws a w-byte pattern whose bytes are mostly taken from the values that masks, sign extensions, delimiters
+// and format codes care about; uniform draws almost never give a wide value with a zero or all-ones half.
+func patternBits(t *rapid.T, w int) uint64 {
+	var v uint64
+	switch rapid.IntRange(0, 3).Draw(t, "patClass") {
+	case 3: // a telling two-byte sequence (line ends, doubled delimiters, escapes, UTF-8 pairs) somewhere in random bytes
+		v = rapid.Uint64().Draw(t, "patRest")
+		if w >= 2 {
+			pair := uint64(rapid.SampledFrom([]int{0x0D0A, 0x0A0D, 0x0A0A, 0x2F2F, 0x2E2E, 0x3E2E, 0x2E0A, 0x0000, 0xFFFF, 0x2222, 0x5C22, 0x5C5C, 0xC3A0, 0xC285, 0x2020, 0x3C4C, 0x0100, 0x0001, 0x8000, 0x00FF, 0xFF00}).Draw(t, "patPair"))
+			at := uint(8 * rapid.IntRange(0, w-2).Draw(t, "patPairAt"))
+			v = v&^(0xFFFF<<at) | pair<<at
+		}
+	case 0: // magnitude of a random bit length
+		bits := rapid.IntRange(0, 8*w).Draw(t, "patBitLen")
+		if bits == 0 {
+			return 0
+		}
+		v = rapid.Uint64().Draw(t, "patMag")
+		if bits < 64 {
+			v &= 1<<uint(bits) - 1
+			v |= 1 << uint(bits-1)
+		} else {
+			v |= 1 << 63
+		}
+		if rapid.Bool().Draw(t, "patNeg") { // the same magnitude below zero (two's complement in w bytes)
+			v = -v
+		}
+	case 1: // byte by byte from a telling set
+		for i := 0; i < w; i++ {
+			var b uint64
+			switch rapid.IntRange(0, 4).Draw(t, "patByteClass") {
+			case 0:
+				b = 0x00
+			case 1:
+				b = 0xFF
+			case 2:
+				b = 0x80
+			case 3:
+				b = uint64(rapid.SampledFrom([]int{0x01, 0x7F, 0x22, 0x2E, 0x3C, 0x3E, 0x0A, 0x0D, 0x2F, 0x20, 0x41, 0x21, 0xA5, 0xB1, 0x5C, 0xFE}).Draw(t, "patByteTelling"))
+			default:
+				b = uint64(rapid.IntRange(0, 255).Draw(t, "patByte"))
+			}
+			v = v<<8 | b
+		}
+	default: // one byte repeated, or two alternating
+		a := uint64(rapid.IntRange(0, 255).Draw(t, "patA"))
+		b := a
+		if rapid.Bool().Draw(t, "patAlt") {
+			b = uint64(rapid.IntRange(0, 255).Draw(t, "patB"))
+		}
+		for i := 0; i < w; i++ {
+			if i%2 == 0 {
+				v = v<<8 | a
+			} else {
+				v = v<<8 | b
+			}
+		}
+	}
+	if w < 8 {
+		v &= 1<<uint(8*w) - 1
+	}
+	return v
+}
+
 func genElem(t *rapid.T, kind string) model.Elem {
 	boundary := rapid.IntRange(0, 2).Draw(t, "boundary") == 0
+	if kind != model.BOOLEAN && rapid.IntRange(0, 4).Draw(t, "patterned") == 4 {
+		w := model.Width(kind)
+		v := patternBits(t, w)
+		switch {
+		case model.IsSigned(kind):
+			sh := uint(64 - 8*w)
+			return model.Elem{I: int64(v<<sh) >> sh}
+		case model.IsUnsigned(kind) || kind == model.B:
+			return model.Elem{U: v}
+		case kind == model.F4:
+			b := uint32(v)
+			if b&0x7F800000 == 0x7F800000 {
+				b &^= 0x00800000
+			}
+			return model.Elem{F: math.Float64bits(float64(math.Float32frombits(b)))}
+		case kind == model.F8:
+			if v&0x7FF0000000000000 == 0x7FF0000000000000 {
+				v &^= 0x0010000000000000
+			}
+			return model.Elem{F: v}
+		}
+	}
 	switch {
 	case kind == model.BOOLEAN:
 		return model.Elem{T: rapid.Bool().Draw(t, "bool")}
@@ -173,12 +312,33 @@ func genElem(t *rapid.T, kind string) model.Elem {
 	panic("genElem " + kind)
 }
 
+var asciiTokenLike = []string{"//", "/", "...", "..", ".", "<", ">", "<L", "<A", ">.", "[", "]", "[1]", "[0..1]", "\"", "\"\"", "'", "\\", "\\\"", "\\n", "\\x41",
+	"0x", "0x22", "0b1", "0o7", "1e5", "-1", "+1", "1.", ".5", "T", "F", "L", "A", "B", "U1", "BOOLEAN", "S1F1", "S0F0", "W", "[W]", "H->E", "H<-E", "H<->E", "*", "**", "%", "%s", "%d", "%!", " ", "  ", "\t", "\n", "\r\n", "\x00", "\x7f", "a", "ab", "aA", "x[0]", "x[1]", "_", "e"}
+
 const hostileChars = "\"\\/<>.[]'\x00\n\t\r\x7f\x1f *%%d"
 
 // genASCII draws a 7-bit string; every code 0..127 can occur.
 func genASCII(t *rapid.T, maxLen int) string {
 	n := rapid.IntRange(0, maxLen).Draw(t, "alen")
-	style := rapid.IntRange(0, 3).Draw(t, "astyle")
+	style := rapid.IntRange(0, 4).Draw(t, "astyle")
+	if style == 4 {
+		// content that looks like SML tokens or repeats itself: a search, split, trim or replace meant for the syntax
+		// must not hit payload text
+		var sb strings.Builder
+		k := rapid.IntRange(1, 6).Draw(t, "atoks")
+		for i := 0; i < k && sb.Len() < maxLen; i++ {
+			tok := rapid.SampledFrom(asciiTokenLike).Draw(t, "atok")
+			if rapid.IntRange(0, 3).Draw(t, "arep") == 3 {
+				tok = strings.Repeat(tok[:1], rapid.IntRange(2, 5).Draw(t, "arepN"))
+			}
+			sb.WriteString(tok)
+		}
+		out := sb.String()
+		if len(out) > maxLen {
+			out = out[:maxLen]
+		}
+		return out
+	}
 	b := make([]byte, n)
 	for i := range b {
 		switch style {
@@ -369,6 +529,37 @@ func (g *treeGen) leaf(t *rapid.T) *model.Node {
 			node.Elems[i] = genElem(t, kind)
 		}
 	}
+	if n >= 2 && kind != model.BOOLEAN && rapid.IntRange(0, 5).Draw(t, "related") == 5 {
+		// two values of one item in a relation: equal, opposite sign, first equal to last, neighbours by one
+		i := rapid.IntRange(0, n-2).Draw(t, "relI")
+		j := rapid.IntRange(i+1, n-1).Draw(t, "relJ")
+		rel := rapid.IntRange(0, 3).Draw(t, "relKind")
+		if rel == 3 {
+			i, j = 0, n-1
+		}
+		a := node.Elems[i]
+		if a.Var == "" && node.Elems[j].Var == "" {
+			b := a
+			switch {
+			case rel == 1 && model.IsSigned(kind) && a.I != math.MinInt64:
+				if lo, _ := intRangeOf(kind); -a.I >= lo && a.I != lo {
+					b.I = -a.I
+				}
+			case rel == 1 && (kind == model.F4 || kind == model.F8):
+				b.F = a.F ^ 1<<63
+			case rel == 2 && model.IsSigned(kind):
+				if _, hi := intRangeOf(kind); a.I < hi {
+					b.I = a.I + 1
+				}
+			case rel == 2 && (model.IsUnsigned(kind) || kind == model.B):
+				if a.U < uintMaxOf(kind) {
+					b.U = a.U + 1
+				}
+			}
+			node.Elems[j] = b
+			stats.labelOnly("related-values", 1)
+		}
+	}
 	return node
 }
 
@@ -462,7 +653,7 @@ var nameAlphabets = []string{
 	"АБВГДежзий",
 	"測試消息名前",
 	"😀🚀✓→≤",
-	"ıſŉǰΐİẞⱥⱦȺ", // case mapping changes the UTF-8 length of these
+	"ıſŉǰΐİẞⱥⱦȺ",                                       // case mapping changes the UTF-8 length of these
 	"\ufeff\u200b\u00ad\u2060\u200d\u034f\u061c\ufffd", // invisible / ignorable characters: none of them is white space, all are part of a name
 }
 
@@ -497,6 +688,11 @@ func genHdr(t *rapid.T, complete bool) Hdr {
 		Dir:      rapid.SampledFrom([]string{"H->E", "H<-E", "H<->E"}).Draw(t, "dir"),
 		Name:     genMsgName(t),
 	}
+	if rapid.IntRange(0, 7).Draw(t, "hdrPattern") == 7 {
+		// special combinations of the codes: both zero, equal, function 0 / 1 / 255, stream 0 / 127
+		p := rapid.SampledFrom([][2]int{{0, 0}, {0, 1}, {1, 0}, {127, 255}, {127, 0}, {0, 255}, {64, 64}, {1, 1}, {10, 10}, {127, 127}, {6, 12}, {9, 0}, {34, 46}, {60, 62}}).Draw(t, "hdrPair")
+		h.Stream, h.Function = p[0], p[1]
+	}
 	wmax := 2
 	if complete {
 		wmax = 1
@@ -510,11 +706,27 @@ func genHdr(t *rapid.T, complete bool) Hdr {
 	} else {
 		h.Session = rapid.IntRange(0, 65535).Draw(t, "session")
 	}
+	if rapid.IntRange(0, 5).Draw(t, "sessPattern") == 5 {
+		// a zero / all-ones / sign-bit half, equal halves
+		hi := rapid.SampledFrom([]int{0x00, 0xFF, 0x80, 0x7F, 0x01, 0x2E, 0x0A}).Draw(t, "sessHalf")
+		lo := rapid.IntRange(0, 255).Draw(t, "sessOther")
+		switch rapid.IntRange(0, 2).Draw(t, "sessWhich") {
+		case 0:
+			h.Session = hi<<8 | lo
+		case 1:
+			h.Session = lo<<8 | hi
+		default:
+			h.Session = lo<<8 | lo
+		}
+	}
 	if !complete && rapid.IntRange(0, 2).Draw(t, "noSession") == 2 {
 		h.Session = -1
 	}
 	h.System = make([]byte, 4)
-	if rapid.Bool().Draw(t, "sysBoundary") {
+	if rapid.IntRange(0, 5).Draw(t, "sysPattern") == 5 {
+		v := patternBits(t, 4)
+		h.System = []byte{byte(v >> 24), byte(v >> 16), byte(v >> 8), byte(v)}
+	} else if rapid.Bool().Draw(t, "sysBoundary") {
 		copy(h.System, rapid.SampledFrom([][]byte{{0, 0, 0, 0}, {255, 255, 255, 255}, {0, 0, 0, 1}, {128, 0, 0, 0}, {1, 2, 3, 4}}).Draw(t, "system"))
 	} else {
 		v := rapid.Uint32().Draw(t, "system")
